@@ -182,12 +182,12 @@ def attribute(meta, line):
     return best
 
 
-def verus_property_run(prop, config, tag, tier):
+def verus_property_run(prop, config, tag, tier, extra_modules=None):
     """Generate, select modules tagged with `prop`, verify; returns a result dict."""
     rs, meta = generate(config, tag, tier)
     mods = sorted(m for m, d in meta['modules'].items() if prop in d['props'])
     lemma_mods = sorted(set(l['module'] for l in meta['lemmas'] if prop in l['props']))
-    sel = sorted(set(mods + lemma_mods))
+    sel = sorted(set(mods + lemma_mods + [m for m in (extra_modules or []) if m in meta['modules']]))
     if not sel:
         raise Undecided('no Verus module is tagged with %s' % prop)
     res = run_verus(rs, sel, tag, rlimit=(200 if tier == 'thorough' else 40))
